@@ -1120,7 +1120,7 @@ class Processor:
                     sliced_elements = []
                     for slice_index in range(intmin, intmax):
                         sliced_elements.append(NodeCoords(
-                            data[slice_index], data, intmin,
+                            data[slice_index], data, slice_index,
                             translated_path + "[{}]".format(slice_index),
                             ancestry + [(data, slice_index)], pathseg))
                     yield NodeCoords(
